@@ -3,7 +3,7 @@
    a cleaned conjunct does not depend on the order in which its conditions arrive (Go map iteration, unstable
    sort.Slice); witnesses for the alternative readings of NOT. *)
 From Coq Require Import List NArith ZArith Bool Lia Permutation.
-From Pk Require Import Query QuerySort QueryClean QueryFlags QueryHosts QueryOps QuerySet QueryAtoms QueryMain.
+From Pk Require Import Query QuerySort QueryClean QueryFlags QueryHosts QueryOps QuerySet QueryAtoms QueryMain QuerySeq QueryThen.
 Import ListNotations.
 Open Scope Z_scope.
 
@@ -120,3 +120,15 @@ Proof. split; [exact ex_val_ok|exact ex_tf_ok]. Qed.
 
 Lemma num_norm1_nosums c : n_sums c = [] -> num_norm1 c = mkNum [] (n_num c).
 Proof. intros H. unfold num_norm1. rewrite H. reflexivity. Qed.
+
+(* an expression with THEN over groups for the non-vacuity of the main theorem:
+   ((cdata:0 or -sdata:1) then data:{0,1}) then -(cdata:1 and tag:a)  or  (id:0 and -(cdata:0 then cdata:1)) *)
+Definition ex_then : expr :=
+  EOr (EThen (EThen (EOr (EAtom (AData 0 [0%N])) (ENot (EAtom (AData 0 [1%N])))) (EAtom (AData 0 [0%N; 1%N])))
+             (ENot (EAnd (EAtom (AData 0 [1%N])) (EAtom (ATag 0 [0%N])))))
+      (EAnd (EAtom (ANum [0%N] 0 [ROne [NPNum false 0]]))
+            (ENot (EThen (EAtom (AData 0 [0%N])) (EAtom (AData 0 [1%N]))))).
+Lemma ex_then_ok : tail_ok ex_then = true /\ expr_wf ex_then.
+Proof. split; [reflexivity|]. cbn. repeat split; discriminate. Qed.
+Lemma hypotheses_satisfiable_then : (val_ok ex_val /\ ids_ok ex_val) /\ (tail_ok ex_then = true /\ expr_wf ex_then).
+Proof. split; [exact ex_val_ok|exact ex_then_ok]. Qed.
